@@ -93,7 +93,9 @@ type Call struct {
 func (call *Call) done() {
 	select {
 	case call.Done <- call:
+		vhook("call.signal", nil, call, 1, 0)
 	default:
+		vhook("call.signal", nil, call, 0, 0)
 	}
 }
 
@@ -203,6 +205,7 @@ func (conn *Conn) write(call *Call) {
 func (conn *Conn) send(call *Call) {
 	conn.mutex.Lock()
 	if conn.shutdown || conn.closing {
+		vhook("c.refuse", conn, call, 0, vupgrade(call.upgrade))
 		conn.mutex.Unlock()
 		call.Error = ErrShutdown
 		call.done()
@@ -230,6 +233,7 @@ func (conn *Conn) send(call *Call) {
 		}
 		conn.pending[seq] = call
 	}
+	vhook("c.register", conn, call, seq, vupgrade(call.upgrade))
 	conn.mutex.Unlock()
 	ctx := Context{}
 	ctx.Seq = seq
@@ -243,6 +247,7 @@ func (conn *Conn) send(call *Call) {
 	err := conn.codec.WriteRequest(&ctx, call.Args)
 	if err != nil {
 		conn.mutex.Lock()
+		vhook("c.unregister", conn, call, seq, vbool(conn.pending[seq] == call))
 		delete(conn.pending, seq)
 		if call.upgrade.Stream == openStream {
 			delete(conn.streams, seq)
@@ -270,6 +275,7 @@ func (conn *Conn) recv() {
 		if err != nil {
 			break
 		}
+		vhook("c.recv", conn, nil, 0, 0)
 		if conn.directIO {
 			conn.read(ctx, false)
 		} else {
@@ -280,10 +286,12 @@ func (conn *Conn) recv() {
 	}
 	conn.mutex.Lock()
 	conn.shutdown = true
+	vhook("c.eof", conn, nil, vbool(err == io.EOF), 0)
 	if err == io.EOF {
 		err = ErrShutdown
 	}
 	for _, call := range conn.pending {
+		vhook("c.sweep", conn, call, 0, 0)
 		call.Error = err
 		call.done()
 	}
@@ -292,6 +300,7 @@ func (conn *Conn) recv() {
 			call.stream.stop()
 		}
 	}
+	vhook("c.swept", conn, nil, uint64(len(conn.pending)), uint64(len(conn.streams)))
 	conn.mutex.Unlock()
 	if conn.readSched != nil {
 		conn.readSched.Close()
@@ -303,17 +312,20 @@ func (conn *Conn) recv() {
 		conn.readStream.Close()
 	}
 	pipeline.Close()
+	vhook("c.closed", conn, nil, 0, 0)
 }
 
 func (conn *Conn) read(ctx *Context, async bool) {
 	var err error
 	err = conn.codec.ReadResponseHeader(ctx)
 	if err != nil {
+		vhook("c.badframe", conn, nil, 0, 0)
 		return
 	}
 	seq := ctx.Seq
 	conn.mutex.Lock()
 	if conn.shutdown {
+		vhook("c.dropshutdown", conn, nil, seq, 0)
 		conn.mutex.Unlock()
 		return
 	}
@@ -321,6 +333,7 @@ func (conn *Conn) read(ctx *Context, async bool) {
 	if call != nil && call.upgrade.Stream != openStream && call.upgrade.Stream != streaming {
 		delete(conn.pending, seq)
 	}
+	vhook("c.dispatch", conn, call, seq, vbool(len(ctx.Error) > 0))
 	conn.mutex.Unlock()
 	switch {
 	case call == nil:
@@ -340,6 +353,7 @@ func (conn *Conn) read(ctx *Context, async bool) {
 		if err != nil {
 			err = errors.New("reading error body: " + err.Error())
 		}
+		vhook("c.errdone", conn, call, seq, 0)
 		call.done()
 		conn.bufferPool.PutBuffer(ctx.buffer)
 		putContext(ctx)
@@ -347,6 +361,7 @@ func (conn *Conn) read(ctx *Context, async bool) {
 		u := call.upgrade
 		if u.NoResponse == noResponse {
 			if u.Heartbeat == heartbeat {
+				vhook("c.ackdone", conn, call, seq, 1)
 				call.done()
 				putUpgrade(u)
 			} else if u.Stream == closeStream {
@@ -356,6 +371,7 @@ func (conn *Conn) read(ctx *Context, async bool) {
 				}
 				delete(conn.streams, ctx.Seq)
 				conn.mutex.Unlock()
+				vhook("c.ackdone", conn, call, seq, 3)
 				call.done()
 				putUpgrade(u)
 			} else if u.Stream == streaming {
@@ -374,6 +390,7 @@ func (conn *Conn) read(ctx *Context, async bool) {
 					return
 				}
 			} else if u.Stream == openStream {
+				vhook("c.ackdone", conn, call, seq, 2)
 				call.done()
 			}
 			conn.bufferPool.PutBuffer(ctx.buffer)
@@ -409,6 +426,7 @@ func (conn *Conn) finishCall(ctx *Context, call *Call, seq uint64) {
 	if err != nil {
 		call.Error = errors.New("reading body " + err.Error())
 	}
+	vhook("c.finish", conn, call, seq, vbool(err != nil))
 	call.done()
 	buf := ctx.buffer
 	conn.bufferPool.PutBuffer(buf)
@@ -446,12 +464,15 @@ func (conn *Conn) NumCalls() (n uint64) {
 func (conn *Conn) Close() (err error) {
 	conn.mutex.Lock()
 	if conn.closing {
+		vhook("c.close.dup", conn, nil, 0, 0)
 		conn.mutex.Unlock()
 		return ErrShutdown
 	}
 	conn.closing = true
+	vhook("c.close", conn, nil, 0, 0)
 	conn.mutex.Unlock()
 	err = conn.codec.Close()
+	vhook("c.close2", conn, nil, 0, 0)
 	return
 }
 
@@ -509,9 +530,11 @@ func (conn *Conn) CallWithContext(ctx context.Context, serviceMethod string, arg
 	select {
 	case <-call.Done:
 		err = call.Error
+		vhook("c.ctx.ret", conn, call, 0, 0)
 		PutCall(call)
 	case <-ctx.Done():
 		err = ctx.Err()
+		vhook("c.ctx.ret", conn, call, 1, 0)
 	}
 	return err
 }
@@ -532,9 +555,11 @@ func (conn *Conn) NewStream(serviceMethod string) (Stream, error) {
 	conn.write(call)
 	var err error
 	<-call.Done
+	vhook("c.stream.acked.gate", conn, call, 0, 0)
 	stream.done = true
 	call.upgrade.NoRequest = 0
 	call.upgrade.Stream = streaming
+	vhook("c.stream.flipped", conn, call, 0, 0)
 	call.ServiceMethod = ""
 	stream.write = func(m interface{}) (err error) {
 		streamCall := callPool.Get().(*Call)
